@@ -97,11 +97,47 @@ def run(tier, seed):
                     bad.append(dict(failed="accumulated probability equals 1 - prod exp(-G_i) since the last attempt", case=info)); break
         if obs is None:
             continue
+        if it % 3 == 0 and not bad:
+            # a clone taken mid-run carries the same accumulation and threshold and attempts at the same step
+            cl = tr.clone(); gcl = gen_rates(rng, n, k, 25); res.count("clone-probes")
+            if float(cl.zeta) != float(tr.zeta) or float(cl.prob_cum) != float(tr.prob_cum):
+                bad.append(dict(failed="a cloned cumulative trajectory keeps the accumulated probability and the current threshold (parent %r/%r, clone %r/%r)" % (float(tr.prob_cum), float(tr.zeta), float(cl.prob_cum), float(cl.zeta)), case=dict(n=n, k=k, zeta_list=zl, seed=sd)))
+            else:
+                for g in gcl:
+                    try:
+                        oa, ob = tr.hopper(np.array(g)), cl.hopper(np.array(g))
+                    except Exception as ex:
+                        bad.append(dict(failed="hopper raised %r on a clone/original pair" % (ex,), case=dict(n=n, k=k, seed=sd))); break
+                    if bool(oa) != bool(ob) or (oa and (oa[0]["target"] != ob[0]["target"] or oa[0]["zeta"] != ob[0]["zeta"])):
+                        bad.append(dict(failed="a cloned cumulative trajectory attempts at the same step, with the same threshold and target, as the original", case=dict(n=n, k=k, seed=sd))); break
         cases.append(tup(fls(zl), fls(stream), flss(gs), lst([tup(bl(a), nat(t), fl(p), fl(z)) for a, t, p, z in obs])))
         meta.append(dict(n=n, k=k, zeta_list=zl, seed=sd, rates=gs, impl=[list(o) for o in obs]))
         res.count("attempts", natt); res.count("nstates/%d" % n); res.count("zeta_list_len/%d" % nz)
         res.count("hops-per-case/%s" % ("0" if natt == 0 else "1" if natt == 1 else "2+"))
         res.case(("cum", n, k, tuple(zl), sd, tuple(map(tuple, gs))), natt > 0, dict(n=n, k=k, zeta_list=zl, steps=nsteps, attempts=natt, targets=targets))
+    # ---- the even-sampling class without a spawn stack (its cumulative-FSSH fallback): same crossing rule, fresh thresholds are
+    #      plain uniform numbers of the trajectory's own stream (drawn before the target number)
+    for it in range(ncase // 4):
+        n = rng.choice([2, 3, 4]); k = rng.randrange(n); sd = rng.randrange(2 ** 31); nsteps = rng.randint(10, 60)
+        gs = gen_rates(rng, n, k, nsteps)
+        tr = mudslide.EvenSamplingTrajectory(StubModel([1.0], n), [0.0], [1.0], k, dt=1.0, seed_sequence=sd, spawn_stack=None)
+        stream = np.random.default_rng(np.random.SeedSequence(sd)).random(2 * nsteps + 6).tolist()
+        stream.pop(0)                                  # TrajectoryCum.__init__ draws one threshold that the subclass then replaces
+        o_z = stream.pop(0); surv = 1.0; natt = 0
+        info0 = dict(kind="even-sampling leaf (spawn_stack=None)", n=n, k=k, seed=sd)
+        if float(tr.zeta) != o_z:
+            bad.append(dict(failed="even-sampling fallback: initial threshold is a uniform number of the trajectory's stream (want %r got %r)" % (o_z, float(tr.zeta)), case=info0)); continue
+        for step, g in enumerate(gs):
+            out = tr.hopper(np.array(g)); G = math.fsum(g); surv *= math.exp(-G); want_acc = 1.0 - surv
+            if abs(want_acc - o_z) < 1e-12: break
+            if bool(out) != (want_acc > o_z):
+                bad.append(dict(failed="even-sampling fallback: attempt exactly when 1 - prod exp(-G_i) exceeds the threshold (acc=%r zeta=%r attempted=%r)" % (want_acc, o_z, bool(out)), case=dict(info0, step=step, rates=gs[:step + 1]))); break
+            if out:
+                o_z = stream.pop(0); u = stream.pop(0); natt += 1
+                if float(tr.zeta) != o_z:
+                    bad.append(dict(failed="even-sampling fallback: after an attempt a fresh uniform threshold is drawn (want the stream's next number %r, got %r; accumulated was %r)" % (o_z, float(tr.zeta), want_acc), case=dict(info0, step=step, rates=gs[:step + 1]))); break
+                tr.prob_cum = 0.0; surv = 1.0          # what hop_to_it does for a leaf
+        res.count("es-leaf-sequences"); res.count("es-leaf-attempts", natt); res.case(("es-leaf", n, k, sd), natt > 0)
     failing, errors = run_case_check("C09", PRELUDE, "case09", "chk09", cases, per_file=100)
     for e in errors:
         res.violation("model evaluation failed (coqc)", dict(kind="coqc-error", log=e, no_failing_input_found=True))
@@ -114,6 +150,7 @@ def run(tier, seed):
     for e in e4:
         res.violation("model evaluation failed (coqc)", dict(kind="coqc-error", log=e, no_failing_input_found=True))
     res.traces_validated += len(tc) - len(f4)
+    bad += getattr(res, "oracle_bad", [])
     if f4 and not bad and not corr:
         res.violation("loop body of a TrajectoryCum run differs from Model/Traj.step_cum (Run/RTraj.chkC): C09_full_step_accepted_hop no longer covers the code",
                       dict(kind="correspondence", correspondence="Run/RTraj.chkC: Model/Traj.step_cum vs the loop body of TrajectoryCum.simulate",
@@ -124,7 +161,7 @@ def run(tier, seed):
         res.violation("implementation differs from Model/Cumulative.v (theorems no longer cover the code)",
                       dict(kind="correspondence", correspondence="Run/R09.chk09: Model/Cumulative.v vs TrajectoryCum.hopper", failing_inputs=corr, no_failing_input_found=True))
     return finish(res, thm,
-                  rule="sequences of 5..60 rate vectors (zero, 1e-12, moderate, totals > 1), 2..8 states, zeta_list of length 0/1/2/4/40 then the generator stream (pre-drawn from a twin generator), driven through TrajectoryCum.hopper; whole loop-body passes of real TrajectoryCum runs (7 models) replayed through Model/Traj.step_cum; "
+                  rule="sequences of 5..60 rate vectors (zero, 1e-12, moderate, totals > 1), 2..8 states, zeta_list of length 0/1/2/4/40 then the generator stream (pre-drawn from a twin generator), driven through TrajectoryCum.hopper and through EvenSamplingTrajectory.hopper without a spawn stack; whole loop-body passes of real TrajectoryCum runs (7 models) replayed through Model/Traj.step_cum; "
                        "non-trivial = sequence with at least one attempt",
                   assumptions=["numpy Generator.choice(p=) consumes one uniform and is searchsorted(cumsum(p)/sum, u, 'right') (checked per attempt by the oracle)",
                                "np.longdouble accumulation vs binary64 model: 2^-40 tolerance; |acc - zeta| < 2^-40 is knife-edge"])
